@@ -360,9 +360,16 @@ def parse_body(kind, rest, lines):
         b.ret = r[3:].strip() if r.startswith('->') else '()'
     else:
         # static NAME: T =    /  const NAME: T =
-        m = re.match(r'^(.*?): (.*) =$', rest)
-        b = Body(kind, m.group(1), rest)
-        b.ret = m.group(2)
+        assert rest.endswith(' ='), rest
+        body_ = rest[:-2]
+        depth = 0; pos = -1
+        for i, c in enumerate(body_):
+            if c in '<([': depth += 1
+            elif c in '>)]' and not (c == '>' and body_[i-1] in '-='): depth -= 1
+            elif c == ':' and depth == 0 and body_[i+1:i+2] == ' ' and body_[i-1] != ':':
+                pos = i; break
+        b = Body(kind, body_[:pos], rest)
+        b.ret = body_[pos+2:]
     cur = None; stmts = None
     for raw in lines:
         l = raw.strip()
